@@ -1,5 +1,8 @@
 #!/usr/bin/env python3
-"""Soundness protocol, interaction part: random COMBINATIONS of the known alternative implementations
+"""(A combination of two alternatives that are each legitimate need not be legitimate itself - e.g. a pool
+that starts workers when it sees a backlog, combined with an unbuffered queue that never shows one - so an
+alarm here is examined by hand before it counts; see DESIGN section 12.)
+Soundness protocol, interaction part: random COMBINATIONS of the known alternative implementations
 (2 or 3 at a time, only those whose edits apply on top of each other and keep the pinned suite
 passing) must stay silent as well.   python3 soundness/combos.py [N=40] [seed=1]  -> soundness/COMBOS.md"""
 import glob, os, random, shutil, subprocess, sys, time
@@ -86,7 +89,7 @@ def main():
     _limit[0] = n
     # (alternatives that deliberately violate ONE other property - "violates Cxx only" - are left out:
     # combined with others their own property's check is run, and rightly alarms)
-    pool = [m for m in ALTS if m["props"] and not any(e[1] is None for e in m["edits"]) and "violates" not in m["why"].lower()]
+    pool = [m for m in ALTS if m["props"] and not any(e[1] is None for e in m["edits"]) and "violates" not in m["why"].lower() and "breaks c" not in m["why"].lower()]
     jobs = []
     for k in range(n * 3):  # many candidates conflict; keep drawing
         jobs.append((k, rng.sample(pool, rng.choice([2, 2, 3]))))
